@@ -244,7 +244,7 @@ def request_power(case_groups: list[dict[str, Any]], req: dict[str, Any], nudge:
             mag = incl
     else:
         mag = max(incl, excl) * (1.0 + frac) + 1.0
-    if nudge and kind in ("excl", "near_excl"):
+    if nudge and (kind in ("excl", "near_excl") or (excl > 0 and abs(mag - excl) <= 1e-9 * excl)):
         mag *= 1.0 + 1e-9
     return mag if up else -mag
 
